@@ -31,7 +31,7 @@ change in between [GATE]; no index computed before a lazy removal is used after 
 links are re-read [STALE]. The behaviour as a whole (all histories) is NOT decided; the search-tree invariant (C02) is
 assumed.""",
      ["C02: the tree is a valid search tree after every completed removal"],
-     {'DESCENT': 4, 'LIVE': 4, 'GATE': 12, 'STALE': 20})
+     {'DESCENT': 4, 'LIVE': 4, 'GATE': 7, 'STALE': 20})
 
 prop('C03', """
 Static analysis (MIR/SSA). Decided clauses: insert computes the layout's place mask of (range.min, range.max) in that
@@ -74,7 +74,7 @@ descent of KeyExpTree continues right when stored<probe, left when stored>probe,
 equality, starts at the (gated) root and returns None at an empty link [DESCENT]; liveness is expiration > time at
 every test [LIVE]; only gated nodes are compared or returned [GATE].""",
      ["C02"],
-     {'DESCENT': 2, 'LIVE': 4, 'GATE': 12})
+     {'DESCENT': 2, 'LIVE': 4, 'GATE': 7})
 
 prop('C07', """
 Static analysis (MIR/SSA). Decided clauses: the export emits a node's value only on the keep side of the liveness
@@ -159,7 +159,7 @@ value exposures of the key tree take their node index only from gate calls made 
 state-changing call between gate and use; in the list every search is dominated by the purge at the operation's time
 and the min_exp shortcut is a maintained lower bound [GATE, LIVE].""",
      ["C02 (removal inside a gate leaves a valid tree)"],
-     {'GATE': 20, 'LIVE': 6})
+     {'GATE': 17, 'LIVE': 6})
 
 prop('C12', """
 Static analysis (MIR/SSA). Decided clause: for each of the seven collections and each of its fields, clear brings the
